@@ -202,7 +202,9 @@ impl Value {
 		decimal_separator: DecimalSeparatorStyle,
 		int: &I,
 	) -> FResult<Self> {
-		if rhs.is_zero(int)? {
+		if rhs.exact && rhs.is_zero(int)? {
+			// only an exact zero can be dropped: an approximate one must still
+			// mark the result as approximate (and its unit must be compatible)
 			return Ok(self);
 		}
 		let scale_factor =
